@@ -1,21 +1,22 @@
 """C18 — one simulation, three spellings (YAML v2, TOML v2, legacy YAML v1).
 
 A case is an abstract description S of a simulation in the version-1 vocabulary.  The harness
-renders it BY HAND into real files (v1 YAML, v2 YAML, v2 TOML, and a v2 YAML whose optional sections
-are present but empty) in a scratch directory that contains real synthetic forcing files, calls the
+renders it BY HAND into real files (v1 YAML, v2 YAML, v2 TOML, and v2 YAML files whose optional sections
+are present but empty / present without content = null) in a scratch directory that contains real synthetic forcing files, calls the
 real `ladim.configure.configure(file)` on each, and
 
 * writes for Coq: S, the tree the parser (yaml / tomli, as used by ladim) produced from the file, the
   sorted wildcard expansion, and the dictionary (or the exception class) `configure` returned; the
-  checker coq/Corr/C18.v requires that the model's renderer gives the parsed tree, that the model's
-  `configure` gives the observed dictionary (keys in the same order), and that the model's
+  checker coq/Corr/C18.v requires that the model's renderer gives the parsed tree (key order ignored), that the
+  model's `configure` gives the observed dictionary (keys in the same order), and that the model's
   `normalize` agrees with the harness's signature-based one;
 * evaluates the ORACLE = the property text: (a) the three dictionaries are the same module
   arguments once the defaults of the real constructors (inspect.signature, reached through the real
   `init_module`) are filled in; (b) the three spellings run through `ladim.main.main` write the same
   output file, variable by variable; (c) an omitted grid section gets the forcing module and the first
   file of the sorted expansion (for `*` and for `?`), and omitted optional sections give the same
-  dictionary as empty ones.
+  dictionary as empty ones and as sections written without content (YAML null); plus, on free trees, the
+  version rule (explicit version, else time_control => v1) and the warm-start rewriting.
 
 Strings are sent to Coq as a per-case table of UTF-8 byte strings (real characters: the wildcard,
 legacy-module-name and version tests are made on them); trees refer to table indices.
@@ -693,7 +694,8 @@ def eval_sim(desc, ctx, d):
              ("v2yaml", "v2.yaml", 2, o_yaml, emit_yaml(tree_v2(S, o_yaml), rng)),
              ("v2toml", "v2.toml", 2, o_toml, emit_toml(tree_v2(S, o_toml), rng)),
              ("v2empty", "v2e.yaml", 0, True, emit_yaml(tree_v2(S, True, empty_sections=True), rng)),
-             ("v2omit", "v2o.yaml", 2, True, emit_yaml(tree_v2(S, True), rng))]
+             ("v2omit", "v2o.yaml", 2, True, emit_yaml(tree_v2(S, True), rng)),
+             ("v2null", "v2n.yaml", 0, True, emit_yaml(nulled(tree_v2(S, True, empty_sections=True)), rng))]
     ints, obs_all, norm_all, notes = [], {}, {}, []
     for name, fname, kind, omit, text in files:
         Path(fname).write_text(text, encoding="utf-8")
@@ -723,6 +725,9 @@ def eval_sim(desc, ctx, d):
     if oracle is None and obs_all["v2omit"][0] == "ok":
         if obs_all["v2empty"][0] != "ok" or not same_dict(obs_all["v2empty"][1], obs_all["v2omit"][1]):
             oracle = f"(c) omitted optional sections differ from empty ones: {diff(obs_all['v2omit'][1], obs_all['v2empty'][1])}"
+        elif obs_all["v2null"][0] != "ok" or not same_dict(obs_all["v2null"][1], obs_all["v2omit"][1]):
+            oracle = (f"(c) optional sections given without content (null) differ from omitted ones: "
+                      f"{obs_all['v2null'] if obs_all['v2null'][0] != 'ok' else diff(obs_all['v2omit'][1], obs_all['v2null'][1])}")
         if S["grid_file"] is None:
             want = expansion[0] if (expansion and ("*" in S["forcing_file"] or "?" in S["forcing_file"])) else S["forcing_file"]
             g = obs_all["v2omit"][1]["grid"]
@@ -748,6 +753,11 @@ def eval_sim(desc, ctx, d):
             "nontrivial": json.dumps(S, sort_keys=True) if (accepted and ok_wf) else None,
             "kind": ("sim-run" if ran else "sim") + ("" if ok_wf else "-outside-hypotheses"),
             "observed": {"wf": ok_wf, "v1": short(obs_all["v1"]), "v2yaml": short(obs_all["v2yaml"]), "ran": ran, "notes": notes}}
+
+
+def nulled(tree):
+    """the optional sections that are empty are written without content (YAML null)"""
+    return {k: (None if k in ("state", "grid", "ibm", "warm_start") and v == {} else v) for k, v in tree.items()}
 
 
 def same_dict(a, b):
@@ -794,6 +804,20 @@ def eval_tree(desc, ctx, d):
                                                "v2" if obs[0] == "ok" else "error")
     if exp in ("v1", "v2", "refused") and got != exp:
         oracle = f"version dispatch: expected {exp}, got {got} ({obs if obs[0] != 'ok' else 'accepted'}) for version={tree.get('version', '<absent>')!r}"
+    if oracle is None and "version" not in tree and isinstance(tree, dict):
+        # no version key: time_control => the v1 reader (bare exceptions, never SystemExit(3)); otherwise the
+        # v2 reader (a missing key is SystemExit(3), never a bare KeyError)
+        if "time_control" in tree and obs == ("err", 13):
+            oracle = "version inference: a file with time_control and no version was read as version 2"
+        if "time_control" not in tree and obs == ("err", 1):
+            oracle = "version inference: a file without time_control and version ended in a bare KeyError (read as version 1?)"
+    if oracle is None and desc.get("same_as") is not None:
+        Path("other.yaml").write_text(emit_yaml(desc["same_as"], rng), encoding="utf-8")
+        obs2, _ = call_configure("other.yaml")
+        if obs != obs2:
+            oracle = (f"optional sections without content (null) do not behave as empty/omitted ones: {obs if obs[0] != 'ok' else 'accepted'} "
+                      f"vs {obs2 if obs2[0] != 'ok' else 'accepted'}"
+                      + (f": {diff(obs[1], obs2[1])}" if obs[0] == obs2[0] == "ok" else ""))
     if desc.get("warm") and obs[0] == "ok":
         if obs[1]["time"]["start"] != wst or obs[1]["release"].get("warm_start_file") != "warm.nc" \
                 or obs[1]["output"].get("skip_initial") is not (desc.get("skip_given", True)):
@@ -995,8 +1019,20 @@ def gen_cases(ctx):
             d["tree"] = tree
         elif what == "null":
             tree = tree_v2(S, rng.random() < 0.5)
-            for sec in rng.sample(["tracker", "time", "release", "state", "grid", "ibm", "warm_start", "output"], rng.randint(1, 2)):
-                tree[sec] = None
+            if rng.random() < 0.6:  # only sections that may be given without content: same as empty / omitted
+                secs = rng.sample(["state", "grid", "ibm", "warm_start", "tracker"], rng.randint(1, 4))
+                other = copy.deepcopy(tree)
+                for sec in secs:
+                    tree[sec] = None
+                    if rng.random() < 0.5 and sec != "tracker":
+                        other.pop(sec, None)
+                    else:
+                        other[sec] = {}
+                d["same_as"] = other
+                d["what"] = "null-optional"
+            else:
+                for sec in rng.sample(["tracker", "time", "release", "state", "grid", "ibm", "warm_start", "output"], rng.randint(1, 2)):
+                    tree[sec] = None
             d["tree"] = tree
         elif what == "warm":
             tree = tree_v2(S, rng.random() < 0.5)
